@@ -320,6 +320,15 @@ def _run_api(op, f):
     iv = {} if interval is None else {'interval': interval}
     if op == 'reconcile':
         return trains_out(G(lambda: spk.spikes.reconcile_spike_trains(L)))
+    if op == 'train_nonempty':          # SpikeTrain methods (generated-model validation only)
+        return [list(G(lambda: t.get_spikes_non_empty())) for t in L]
+    if op == 'train_copy':
+        return trains_out([G(lambda t=t: t.copy()) for t in L])
+    if op == 'train_sort':
+        C = [SpikeTrain(np.array(t.spikes), [t.t_start, t.t_end]) for t in L]
+        for c in C:
+            c.sort()
+        return trains_out(C)
     if op == 'isi_profile_bi':
         return pw_out(G(lambda: spk.isi_profile(L[0], L[1], **kw)))
     if op == 'isi_profile_multi':
@@ -443,6 +452,6 @@ EXACT = {
 def exact_fields(op, nfields):
     if op in ('round_sci', 'save_load'):
         return 'float-exact'
-    if op in ('reconcile', 'filter_by_sync', 'merge', 'psth', 'time_series', 'poisson'):
+    if op in ('reconcile', 'filter_by_sync', 'merge', 'psth', 'time_series', 'poisson', 'train_nonempty', 'train_copy', 'train_sort'):
         return tuple(range(nfields))
     return EXACT.get(op, ())
